@@ -59,7 +59,7 @@ def gen(seed, tier, extra=None):
              'func_includes': rng.random() < 0.3, 'p_broken': rng.choice([0.0, 0.0, 0.1]),
              'fetch_faults': rng.choice([0, 0, 1, 2]), 'early_return': rng.choice([0.05, 0.2]),
              'p_include': rng.choice([0.15, 0.3, 0.5]), 'self_include': rng.choice([0.0, 0.15, 0.3]),
-             'odd_names': rng.choice([0.0, 0.0, 0.3])}
+             'odd_names': rng.choice([0.0, 0.0, 0.3]), 'p_funclib': 0.25}
     g = gen_exec.ExecGen(rng, knobs)
     plan = g.gen_plan()
     plan['seed'] = seed
